@@ -161,7 +161,8 @@ def run(chk, tier, replay=None):
         if enc.crashed(res) or res.res is None or res.res.get("api_error"):
             return case, res, [(None, "encode failed (rc=%s %s): not judged here (C11)" % (res.rc, (res.res or {}).get("errmsg")))], {}
         v, info = judge_stream(case, res, prefix)
-        if not v:
+        if not [k for k, _ in v if k != "C02|stream-header-api-differs"]:
+            # independent cross-check: a syntactically consistent packet can still carry wrong size fields
             st, ai = enc.ref_decode(prefix + ".ivf", "aom", "-")
             if st == "ok" and any(x != 1 for x in ai.get("per_packet", [])):
                 v.append(("C02|libaom-per-packet|%s" % common.feature_sig(case),
